@@ -8,8 +8,10 @@ package gocql
 // cluster harnesses. Add-only.
 
 import (
+	"context"
 	"errors"
 	"net"
+	"sync"
 	"time"
 )
 
@@ -107,4 +109,72 @@ func VerifFlushAttribution(lens []int, limit int64) (ns []int, ok []bool) {
 		}
 	}
 	return
+}
+
+// VerifWriteResult is what contextWriter.writeContext returned for one frame.
+type VerifWriteResult struct {
+	N   int
+	Err string // "" | "ctx" | "other"
+}
+
+type verifRecWriter struct {
+	mu    sync.Mutex
+	buf   []byte
+	delay time.Duration
+}
+
+func (w *verifRecWriter) SetWriteDeadline(time.Time) error { return nil }
+func (w *verifRecWriter) Write(p []byte) (int, error) {
+	if w.delay > 0 {
+		time.Sleep(w.delay)
+	}
+	w.mu.Lock()
+	w.buf = append(w.buf, p...)
+	w.mu.Unlock()
+	return len(p), nil
+}
+
+// VerifRunWriter drives the real deadlineContextWriter (coalesce == 0) or writeCoalescer over a recording
+// socket: frame i is submitted after startDelay[i] with a context cancelled cancelAfter[i] later (0 = never).
+// It returns what every writeContext call reported and the bytes the socket received.
+func VerifRunWriter(coalesce, writeDelay time.Duration, frames [][]byte, startDelay, cancelAfter []time.Duration) ([]VerifWriteResult, []byte) {
+	conn := &verifRecWriter{delay: writeDelay}
+	quit := make(chan struct{})
+	var w contextWriter
+	if coalesce > 0 {
+		w = newWriteCoalescer(conn, 0, coalesce, quit)
+	} else {
+		w = &deadlineContextWriter{w: conn, semaphore: make(chan struct{}, 1), quit: make(chan struct{})}
+	}
+	res := make([]VerifWriteResult, len(frames))
+	var wg sync.WaitGroup
+	for i := range frames {
+		wg.Add(1)
+		go func(i int) {
+			defer wg.Done()
+			time.Sleep(startDelay[i])
+			ctx, cancel := context.WithCancel(context.Background())
+			defer cancel()
+			if cancelAfter[i] > 0 {
+				t := time.AfterFunc(cancelAfter[i], cancel)
+				defer t.Stop()
+			}
+			n, err := w.writeContext(ctx, frames[i])
+			r := VerifWriteResult{N: n}
+			switch {
+			case err == nil:
+			case errors.Is(err, context.Canceled) || errors.Is(err, context.DeadlineExceeded):
+				r.Err = "ctx"
+			default:
+				r.Err = "other"
+			}
+			res[i] = r
+		}(i)
+	}
+	wg.Wait()
+	time.Sleep(2*coalesce + 2*writeDelay + time.Millisecond)
+	close(quit)
+	conn.mu.Lock()
+	defer conn.mu.Unlock()
+	return res, append([]byte(nil), conn.buf...)
 }
